@@ -168,7 +168,18 @@ static void new_str(World &w, FS *s, std::string r, const char *what) {
 	check_str(w, w.strs.size() - 1, what);
 }
 
+static bool g_assert_expected = false;
+static void run_lines(const vh::Lines &ls);
 static void body(const vh::Lines &ls) {
+	g_assert_expected = false;
+	try { run_lines(ls); }
+	catch(vh::AssertStop &a) {
+		// the only documented stop: sub_string with a request outside the view
+		if(!g_assert_expected) vh::oracle("unexpected-assert", "assertion hook reached by an operation whose preconditions hold: %s", a.where.c_str());
+		throw;
+	}
+}
+static void run_lines(const vh::Lines &ls) {
 	g_id = 0; g_block_id.clear(); g_evs.clear(); drop_bufs();
 	{
 		World w;
@@ -209,7 +220,9 @@ static void body(const vh::Lines &ls) {
 			} else if(o == "sub") {
 				VE a = eval(w, t[1]); size_t from = vh::u64(t[2]), size = vh::u64(t[3]);
 				bool inside = from <= a.ref.size() && size <= a.ref.size() - from;
+				g_assert_expected = !inside;
 				FV r = a.v.sub_string(from, size);        // stops in the assertion hook when outside
+				g_assert_expected = false;
 				if(!inside) {
 					vh::oracle("substr-bounds", "sub_string(%zu, %zu) of a view of size %zu returned a view instead of stopping", from, size, a.ref.size());
 					printf("w bad\n");
